@@ -4,8 +4,9 @@
      Sample.parameter_lists_for_paths, Sample.subsample                            -> param_list / subsample
      AbstractPriorModel.all_paths, SamplesInterface.path_map_for_model             -> all_paths / path_map
      SamplesSummary.subsamples (child results of IndexCollectionAnalysis / FreeParameterAnalysis.make_result) -> subsamples
-   Faithful to the code that exists: subsamples resets `_paths` (and `_names`) of the copy but keeps `_instance`
-   (finding subsamples-keeps-parent-instance; proposed_fixes/C12-subsamples-resets-instance.diff). *)
+   Faithful to the code that exists: since 4da3fbc (proposed_fixes/C12-subsamples-resets-instance.diff) subsamples resets
+   `_paths`, `_names` and `_instance` of the copy.  `resets = false` is the behaviour before the repair (the copy kept the
+   parent's `_instance`: finding subsamples-keeps-parent-instance), kept for the legacy witness. *)
 From Coq Require Import List String Bool Arith PeanoNat.
 From Coq Require Import Floats.PrimFloat.
 From PAFCommon Require Import PyFloat.
@@ -16,6 +17,7 @@ Local Open Scope list_scope.
 Section Summary.
   Variable V : Type.
   Variable bin : binop -> V -> V -> V.
+  Variable resets : bool.                        (* subsamples resets `_instance` of the copy (4da3fbc) *)
   Notation node := (node V).
 
   Definition kwargs := list (path * V).          (* Sample.kwargs: the first entry of a key is the live one *)
@@ -109,7 +111,8 @@ Section Summary.
     match subsample pm (sm_max s),
           match sm_med s with None => Some None | Some kw => option_map Some (subsample pm kw) end with
     | Some mx, Some md =>
-        Some {| sm_model := child; sm_max := mx; sm_med := md; sm_paths := None; sm_inst := sm_inst s |}
+        Some {| sm_model := child; sm_max := mx; sm_med := md; sm_paths := None;
+                sm_inst := if resets then None else sm_inst s |}
     | _, _ => None
     end.
 
@@ -125,6 +128,13 @@ Section Summary.
     | OInstance :: ops' => run ops' (read_instance s)
     | OSub child :: ops' => match subsamples s child with Some c => run ops' c | None => None end
     end.
+
+  Lemma run_app : forall ops1 ops2 x,
+    run (ops1 ++ ops2) x = match run ops1 x with Some y => run ops2 y | None => None end.
+  Proof.
+    induction ops1 as [|o ops1 IH]; intros ops2 x; simpl; [reflexivity|].
+    destruct o as [| |ch]; try apply IH. destruct (subsamples x ch); [apply IH | reflexivity].
+  Qed.
 
   (* ---------------------------------------------------------------------------------------- *)
   (* the cache invariant and what follows from it                                               *)
@@ -219,10 +229,7 @@ Section Summary.
   Proof.
     intros s before child after c c0 Hc Hb Ha Hr H0.
     destruct (reads_total before s Hb) as [s1 H1].
-    assert (Hsplit : forall ops1 ops2 x, run (ops1 ++ ops2) x = match run ops1 x with Some y => run ops2 y | None => None end).
-    { induction ops1 as [|o ops1 IH]; intros ops2 x; simpl; [reflexivity|].
-      destruct o as [| |ch]; try apply IH. destruct (subsamples x ch); [apply IH | reflexivity]. }
-    rewrite Hsplit, H1 in Hr. simpl in Hr.
+    rewrite run_app, H1 in Hr. simpl in Hr.
     destruct (reads_keep before s s1 Hb H1) as (Km & Kx & Kd).
     destruct (subsamples_samples s s1 child c0 (eq_sym Km) (eq_sym Kx) (eq_sym Kd) H0) as (c1 & Hs1 & Lm & Lx & Ld).
     rewrite Hs1 in Hr.
@@ -235,34 +242,73 @@ Section Summary.
     split; [rewrite <- Hm1, <- Lm in *; congruence | split; reflexivity].
   Qed.
 
-  (* the child's instance is its own when no instance was cached before the child was made (guard of the finding) *)
-  Lemma child_instance_own : forall s before child after c,
-    coherent s -> sm_inst s = None -> Forall is_vector_read before -> Forall is_vector_read after ->
-    run (before ++ OSub child :: after) s = Some c ->
+  (* ---------------------------------------------------------------------------------------- *)
+  (* the instance cache                                                                         *)
+  (* ---------------------------------------------------------------------------------------- *)
+  (* a cached instance is the summary's own model at the summary's own best-fit vector *)
+  Definition inst_ok (s : summary) : Prop :=
+    forall i, sm_inst s = Some i -> option_map (inst_from_vector V bin (sm_model s)) (max_vector s) = Some i.
+
+  Lemma fill_vector : forall s, max_vector (fill s) = max_vector s.
+  Proof. intros s. reflexivity. Qed.
+
+  Lemma read_instance_vector : forall s, max_vector (read_instance s) = max_vector s.
+  Proof. intros s. reflexivity. Qed.
+
+  Lemma fill_inst_ok : forall s, inst_ok s -> inst_ok (fill s).
+  Proof.
+    intros s H i Hi. change (sm_inst s = Some i) in Hi.
+    change (option_map (inst_from_vector V bin (sm_model s)) (max_vector (fill s)) = Some i).
+    rewrite fill_vector. apply H; exact Hi.
+  Qed.
+
+  Lemma read_instance_inst_ok : forall s, inst_ok s -> inst_ok (read_instance s).
+  Proof.
+    intros s H i Hi. change (instance_value s = Some i) in Hi.
+    change (option_map (inst_from_vector V bin (sm_model s)) (max_vector (read_instance s)) = Some i).
+    rewrite read_instance_vector. revert Hi. unfold instance_value.
+    destruct (sm_inst s) as [j|] eqn:E; intro Hi.
+    - inversion Hi; subst. apply H; exact E.
+    - exact Hi.
+  Qed.
+
+  Lemma reads_inst_ok : forall ops s c, Forall is_read ops -> inst_ok s -> run ops s = Some c -> inst_ok c.
+  Proof.
+    induction ops as [|o ops IH]; intros s c Hf Hok Hr; simpl in Hr.
+    - inversion Hr; subst; exact Hok.
+    - inversion Hf as [|o' ops' Ho Hf']; subst.
+      destruct o as [| |child]; [| |destruct Ho].
+      + apply (IH (fill s)); [exact Hf' | apply fill_inst_ok; exact Hok | exact Hr].
+      + apply (IH (read_instance s)); [exact Hf' | apply read_instance_inst_ok; exact Hok | exact Hr].
+  Qed.
+
+  Lemma inst_ok_value : forall s, inst_ok s ->
+    instance_value s = option_map (inst_from_vector V bin (sm_model s)) (max_vector s).
+  Proof.
+    intros s H. unfold instance_value.
+    destruct (sm_inst s) as [i|] eqn:E; [symmetry; apply H; exact E | reflexivity].
+  Qed.
+
+  (* THE CHILD'S INSTANCE IS ITS OWN (full, for the code since 4da3fbc): whatever happened to the parent before - reads,
+     instance reads, children of children - and whatever is read from the child afterwards, the child's instance is the
+     child model at the child's own best-fit vector *)
+  Lemma child_instance_own : resets = true -> forall s before child after c,
+    Forall is_read after -> run (before ++ OSub child :: after) s = Some c ->
     instance_value c = option_map (inst_from_vector V bin child) (max_vector c) /\ sm_model c = child.
   Proof.
-    intros s before child after c Hc Hi Hb Ha Hr.
-    assert (Hkeep : forall ops x y, Forall is_vector_read ops -> run ops x = Some y ->
-                      sm_inst y = sm_inst x /\ sm_model y = sm_model x).
-    { induction ops as [|o ops IH]; intros x y Hf Hrun; simpl in Hrun.
-      - inversion Hrun; subst; split; reflexivity.
-      - inversion Hf as [|o' ops' Ho Hf']; subst. destruct o; try destruct Ho.
-        destruct (IH (fill x) y Hf' Hrun) as [A B]; simpl in *; split; assumption. }
-    assert (Hsplit : forall ops1 ops2 x, run (ops1 ++ ops2) x = match run ops1 x with Some y => run ops2 y | None => None end).
-    { induction ops1 as [|o ops1 IH]; intros ops2 x; simpl; [reflexivity|].
-      destruct o as [| |ch]; try apply IH. destruct (subsamples x ch); [apply IH | reflexivity]. }
-    rewrite Hsplit in Hr. destruct (run before s) as [s1|] eqn:H1; [|discriminate]. simpl in Hr.
-    destruct (Hkeep before s s1 Hb H1) as [Ki Km].
+    intros Hres s before child after c Ha Hr.
+    rewrite run_app in Hr. destruct (run before s) as [s1|]; [|discriminate]. simpl in Hr.
     destruct (subsamples s1 child) as [c1|] eqn:Hs; [|discriminate].
-    assert (Hci : sm_inst c1 = None).
+    assert (Hok1 : inst_ok c1).
     { unfold subsamples in Hs.
       destruct (subsample (path_map (sm_model s1) child) (sm_max s1)); [|discriminate].
       destruct (match sm_med s1 with None => Some None | Some kw => option_map Some (subsample (path_map (sm_model s1) child) kw) end);
         [|discriminate].
-      inversion Hs; subst; simpl. rewrite Ki; exact Hi. }
+      inversion Hs; subst. intros i Hi. simpl in Hi. rewrite Hres in Hi. discriminate. }
     destruct (subsamples_coherent s1 child c1 Hs) as [_ Hm1].
-    destruct (Hkeep after c1 c Ha Hr) as [Li Lm].
-    unfold instance_value. rewrite Li, Hci, Lm, Hm1. split; reflexivity.
+    destruct (reads_keep after c1 c Ha Hr) as (Mm & _ & _).
+    pose proof (reads_inst_ok after c1 c Ha Hok1 Hr) as Hok.
+    rewrite (inst_ok_value c Hok), Mm, Hm1. split; reflexivity.
   Qed.
 End Summary.
 
@@ -273,7 +319,12 @@ Inductive scase :=
 | SCase (joint : node float) (kw : list (path * float))
         (pre_read pre_inst mid_read : bool)      (* parent read / parent.instance read before; intermediate child read *)
         (chain : list (node float))              (* the child models, each inside the previous one *)
-        (vec : option (list float)).             (* child.max_log_likelihood(as_instance=False); None = KeyError *)
+        (vec : option (list float))              (* child.max_log_likelihood(as_instance=False); None = KeyError *)
+        (inst : option (option (ival float))).   (* child.instance (Some None = raised); None = not compared *)
+
+(* the variant of the code under test: SamplesSummary.subsamples resets `_instance` (4da3fbc); the harness checks the
+   source on every run (obligation translator:subsamples-resets-instance) *)
+Definition subsamples_resets_instance : bool := true.
 
 Definition session_ops (pre_read pre_inst mid_read : bool) (chain : list (node float)) : list (op float) :=
   (if pre_read then [ORead float] else []) ++ (if pre_inst then [OInstance float] else []) ++
@@ -284,16 +335,24 @@ Definition session_ops (pre_read pre_inst mid_read : bool) (chain : list (node f
 
 Definition check_scase (c : scase) : bool :=
   match c with
-  | SCase joint kw pre_read pre_inst mid_read chain vec =>
-      let got := match run float fbin (session_ops pre_read pre_inst mid_read chain) (fresh float joint kw None) with
-                 | Some s => max_vector float s
-                 | None => None
-                 end in
+  | SCase joint kw pre_read pre_inst mid_read chain vec inst =>
+      let final := run float fbin subsamples_resets_instance (session_ops pre_read pre_inst mid_read chain)
+                       (fresh float joint kw None) in
+      let got := match final with Some s => max_vector float s | None => None end in
       match got, vec with
       | Some a, Some b => list_eqb fbits_eqb a b
       | None, None => true
       | _, _ => false
       end
+      && match inst with
+         | None => true
+         | Some o =>
+             match (match final with Some s => instance_value float fbin s | None => None end), o with
+             | Some a, Some b => ival_eqb a b
+             | None, None => true
+             | _, _ => false
+             end
+         end
   end.
 
 (* ------------------------------------------------------------------------------------------ *)
@@ -309,10 +368,11 @@ Definition wit_joint : node nat :=
 Definition wit_kw : list (path * nat) := [(["m"; "centre"], 4); (["m"; "sigma"], 7)].
 Definition wit_bin (o : binop) (a b : nat) : nat := a.
 
-Lemma child_instance_refuted :
+(* before 4da3fbc (resets = false) the statement of child_instance_own failed: *)
+Lemma child_instance_legacy_refuted :
   exists (s : summary nat) (before : list (op nat)) (child : node nat) (after : list (op nat)) (c : summary nat),
     coherent nat s /\ sm_inst nat s = None /\ Forall (is_read nat) before /\ Forall (is_read nat) after /\
-    run nat wit_bin (before ++ OSub nat child :: after) s = Some c /\
+    run nat wit_bin false (before ++ OSub nat child :: after) s = Some c /\
     instance_value nat wit_bin c <> option_map (inst_from_vector nat wit_bin child) (max_vector nat c).
 Proof.
   exists (fresh nat wit_joint wit_kw None), [OInstance nat], wit_child, [].
